@@ -382,6 +382,10 @@ class SimFile:
         members = comm._members
 
         def complete(p):
+            names = {os.path.abspath(x) for x in p}
+            if len(names) != 1:
+                raise Violation('collective-mismatch', dict(op='h5open', why='the members of the communicator open different paths collectively',
+                                                            paths=sorted(os.path.relpath(x, os.path.dirname(os.path.dirname(os.path.abspath(name)))) for x in names)))
             if mode in ('r',):
                 real = _real['h5File'](name, 'r')
             else:
@@ -389,7 +393,7 @@ class SimFile:
                 w.no_abort_depth += 1
             sh = _SharedFile(real, name, members)
             return [sh] * len(p)
-        self._shared = self._coll('h5open', (os.path.basename(name), mode), None, complete)
+        self._shared = self._coll('h5open', (os.path.basename(name), mode), name, complete)
 
     def _coll(self, op, sig, payload, complete):
         c = self._comm
